@@ -114,6 +114,7 @@ archive_filter_b64encode_options(struct archive_write_filter *f, const char *key
     const char *value)
 {
 	struct private_b64encode *state = (struct private_b64encode *)f->data;
+	const char *p;
 
 	if (strcmp(key, "mode") == 0) {
 		if (value == NULL) {
@@ -128,6 +129,16 @@ archive_filter_b64encode_options(struct archive_write_filter *f, const char *key
 			archive_set_error(f->archive, ARCHIVE_ERRNO_MISC,
 			    "name option requires a string");
 			return (ARCHIVE_FAILED);
+		}
+		for (p = value; *p != '\0'; p++) {
+			/* The reader rejects a header line holding
+			 * anything but printable ASCII. */
+			if (*p < 0x20 || *p > 0x7e) {
+				archive_set_error(f->archive,
+				    ARCHIVE_ERRNO_MISC,
+				    "name option requires printable ASCII");
+				return (ARCHIVE_FAILED);
+			}
 		}
 		archive_strcpy(&state->name, value);
 		return (ARCHIVE_OK);
@@ -165,8 +176,11 @@ archive_filter_b64encode_open(struct archive_write_filter *f)
 		return (ARCHIVE_FATAL);
 	}
 
-	archive_string_sprintf(&state->encoded_buff, "begin-base64 %o %s\n",
-	    (unsigned int)state->mode, state->name.s);
+	/* The reader wants exactly three octal digits. */
+	archive_string_sprintf(&state->encoded_buff, "begin-base64 %o%o%o %s\n",
+	    (unsigned int)(state->mode >> 6) & 7,
+	    (unsigned int)(state->mode >> 3) & 7,
+	    (unsigned int)state->mode & 7, state->name.s);
 
 	f->data = state;
 	return (0);
